@@ -1,0 +1,11 @@
+//go:build verif
+// +build verif
+
+package ast
+
+// VerifHeaderBytes exposes getHeaderBytes (format byte + length bytes for a type name and a
+// size) to the verification harness, so that every size can be swept without building items.
+// Compiled only with the build tag "verif".
+func VerifHeaderBytes(typ string, size int) ([]byte, error) {
+	return getHeaderBytes(typ, size)
+}
